@@ -1,1 +1,513 @@
-/- C17 — property theorems (stub: not built yet) -/
+import Rivaas.Spec.Gates
+/-
+C17 — Request-gating and redirect middleware enforce their policy exactly.
+One theorem group per gate; every statement quantifies over all inputs of the gate's model
+(`Model/Gates.lean`); `…_meets_spec` theorems say that the model's observation satisfies the oracle
+the driver evaluates on the real code (`Spec/Gates.lean`).
+-/
+namespace Rivaas.C17
+open Rivaas.Gates
+
+/-! ## bodylimit -/
+section body
+open Body
+
+theorem lemma_wb_tail (s : List Step) (h : wellBehaved s = true) : wellBehaved s.tail = true := by
+  cases s with
+  | nil => simp [wellBehaved]
+  | cons a t => simp [wellBehaved] at h ⊢; exact h.2
+
+theorem lemma_chunkOf_bounds (u : Under) (cap : Nat) (hc : 1 ≤ cap) :
+    1 ≤ chunkOf u cap ∧ chunkOf u cap ≤ cap := by
+  unfold chunkOf; split <;> omega
+
+/-- on a well-behaved script a read of a non-exhausted body is a data read -/
+theorem lemma_read_wb (u : Under) (cap : Nat) (hwb : wellBehaved u.script = true) (hr : u.rem ≠ []) :
+    u.read cap =
+      (u.rem.take (min (chunkOf u cap) u.rem.length),
+       (if u.rem.drop (min (chunkOf u cap) u.rem.length) = [] ∧ u.eofWithLast = true then Err.eof else Err.none),
+       { u with rem := u.rem.drop (min (chunkOf u cap) u.rem.length), script := u.script.tail }) := by
+  unfold Under.read
+  simp only [hr, if_false]
+  cases hs : u.script with
+  | nil => rfl
+  | cons a t =>
+    cases a with
+    | data k => rfl
+    | zero => simp [hs, wellBehaved] at hwb
+    | fail => simp [hs, wellBehaved] at hwb
+
+theorem lemma_read_empty (u : Under) (cap : Nat) (hr : u.rem = []) :
+    (u.read cap).1 = [] ∧ (u.read cap).2.1 = .eof := by
+  simp [Under.read, hr]
+
+theorem lemma_read_fst_ne_nil (u : Under) (cap : Nat) (hc : 1 ≤ cap) (hwb : wellBehaved u.script = true)
+    (hr : u.rem ≠ []) : (u.read cap).1 ≠ [] := by
+  obtain ⟨hk1, _⟩ := lemma_chunkOf_bounds u cap hc
+  have hlen : 1 ≤ u.rem.length := by
+    cases h : u.rem with
+    | nil => exact absurd h hr
+    | cons a as => simp
+  rw [lemma_read_wb u cap hwb hr]
+  intro hcon
+  have h2 : (u.rem.take (min (chunkOf u cap) u.rem.length)).length = 0 := by
+    simp only at hcon; rw [hcon]; rfl
+  rw [List.length_take] at h2
+  omega
+
+/-- over a well-behaved transport the look-ahead is a single read -/
+theorem lemma_lookAhead_wb (u : Under) (hwb : wellBehaved u.script = true) :
+    lookAhead maxEmptyReads u = u.read 1 := by
+  show lookAhead (99 + 1) u = u.read 1
+  unfold lookAhead
+  by_cases hr : u.rem = []
+  · have := lemma_read_empty u 1 hr
+    simp [this.2]
+  · have := lemma_read_fst_ne_nil u 1 (Nat.le_refl 1) hwb hr
+    simp [this]
+
+/-- state after an ordinary read of `n` bytes -/
+def adv (l : LR) (n : Nat) : LR :=
+  { l with under := { l.under with rem := l.under.rem.drop n, script := l.under.script.tail }, read := l.read + n }
+
+/-- the five outcomes of one `limitedReader.Read` on a non-exhausted body over a well-behaved transport -/
+theorem lemma_read1_cases (l : LR) (cap : Nat) (hc : 1 ≤ cap) (hlim : l.read < l.limit)
+    (hwb : wellBehaved l.under.script = true) (hr : l.under.rem ≠ []) :
+    ∃ n, 1 ≤ n ∧ n ≤ l.limit - l.read ∧ n ≤ l.under.rem.length ∧
+      ((l.under.rem.drop n = [] ∧ ((l.read1 cap).1 = l.under.rem.take n) ∧
+          (((l.read1 cap).2.1 = .eof) ∨
+           ((l.read1 cap).2.1 = .none ∧ l.read + n < l.limit ∧ (l.read1 cap).2.2 = adv l n))) ∨
+       (l.under.rem.drop n ≠ [] ∧ (l.read1 cap).1 = l.under.rem.take n ∧
+          ((l.read + n = l.limit ∧ (l.read1 cap).2.1 = .limit) ∨
+           (l.read + n < l.limit ∧ (l.read1 cap).2.1 = .none ∧ (l.read1 cap).2.2 = adv l n)))) := by
+  have hge : ¬ (l.read ≥ l.limit) := by omega
+  have hcap' : 1 ≤ min cap (l.limit - l.read) := by omega
+  obtain ⟨hk1, hk2⟩ := lemma_chunkOf_bounds l.under (min cap (l.limit - l.read)) hcap'
+  have hlen : 1 ≤ l.under.rem.length := by
+    cases h : l.under.rem with
+    | nil => exact absurd h hr
+    | cons a as => simp
+  refine ⟨min (chunkOf l.under (min cap (l.limit - l.read))) l.under.rem.length, by omega, by omega, by omega, ?_⟩
+  have hread := lemma_read_wb l.under (min cap (l.limit - l.read)) hwb hr
+  generalize hn : min (chunkOf l.under (min cap (l.limit - l.read))) l.under.rem.length = n at hread ⊢
+  have hn1 : 1 ≤ n := by omega
+  have hn3 : n ≤ l.under.rem.length := by omega
+  have hn2 : n ≤ l.limit - l.read := by omega
+  have htl : (l.under.rem.take n).length = n := by simp; omega
+  have hwb' : wellBehaved ({ l.under with rem := l.under.rem.drop n, script := l.under.script.tail } : Under).script = true :=
+    lemma_wb_tail _ hwb
+  have hla := lemma_lookAhead_wb
+    ({ l.under with rem := l.under.rem.drop n, script := l.under.script.tail } : Under) hwb'
+  by_cases hd : l.under.rem.drop n = []
+  · left
+    refine ⟨hd, ?_, ?_⟩
+    · unfold LR.read1; simp only [hge, if_false, hread, hla]
+    · by_cases he : l.under.eofWithLast = true
+      · left; unfold LR.read1; simp [hge, hread, hd, he]
+      · by_cases hat : l.read + n ≥ l.limit
+        · left; unfold LR.read1
+          simp only [hge, if_false, hread, hla]
+          simp [hd, he, htl, hat]
+          simp [Under.read]
+        · right
+          refine ⟨?_, by omega, ?_⟩
+          · unfold LR.read1; simp [hge, hread, hd, he, htl, hat]
+          · unfold LR.read1; simp [hge, hread, hd, he, htl, hat, adv]
+  · right
+    refine ⟨hd, ?_, ?_⟩
+    · unfold LR.read1; simp only [hge, if_false, hread, hla]
+    · by_cases hat : l.read + n ≥ l.limit
+      · left
+        refine ⟨by omega, ?_⟩
+        have hx := lemma_read_fst_ne_nil
+          ({ l.under with rem := l.under.rem.drop n, script := l.under.script.tail } : Under) 1 (Nat.le_refl 1) hwb' hd
+        unfold LR.read1; simp [hge, hread, hla, hd, htl, hat, hx]
+      · right
+        refine ⟨by omega, ?_, ?_⟩
+        · unfold LR.read1; simp [hge, hread, hd, htl, hat]
+        · unfold LR.read1; simp [hge, hread, hd, htl, hat, adv]
+
+/-- **Exactness of the limited reader** for every chunking of a well-behaved transport, every
+    sequence of buffer sizes, either EOF style and every limit: a body within the limit is delivered
+    unchanged and ends with io.EOF; a longer body makes the read fail with ErrBodyLimitExceeded after
+    exactly `limit` bytes — never a silently truncated body. -/
+theorem bodylimit_exact (dflt : Nat) (fuel : Nat) (caps : List Nat) (l : LR) (acc : Bytes)
+    (hlim : l.read < l.limit) (hwb : wellBehaved l.under.script = true)
+    (hfuel : l.under.rem.length + 2 ≤ fuel) :
+    readAll dflt fuel caps l acc =
+      if l.read + l.under.rem.length ≤ l.limit then (acc ++ l.under.rem, .eof)
+      else (acc ++ l.under.rem.take (l.limit - l.read), .limit) := by
+  induction fuel generalizing l acc caps with
+  | zero => omega
+  | succ fuel ih =>
+    have hge : ¬ (l.read ≥ l.limit) := by omega
+    have hc : 1 ≤ max 1 (caps.headD dflt) := by omega
+    simp only [readAll]
+    generalize max 1 (caps.headD dflt) = cap at hc ⊢
+    by_cases hr : l.under.rem = []
+    · simp [LR.read1, hge, Under.read, hr]; omega
+    · obtain ⟨n, hn1, hn2, hn3, hcase⟩ := lemma_read1_cases l cap hc hlim hwb hr
+      have hdl : (l.under.rem.drop n).length = l.under.rem.length - n := by simp
+      have hsplit : l.under.rem.take n ++ l.under.rem.drop n = l.under.rem := List.take_append_drop n _
+      have hwb' : wellBehaved (adv l n).under.script = true := by
+        simpa [adv] using lemma_wb_tail _ hwb
+      rcases hcase with ⟨hd, hdata, hres⟩ | ⟨hd, hdata, hres⟩
+      · have hnlen : n = l.under.rem.length := by
+          have := hdl; rw [hd] at this; simp at this; omega
+        have htake : l.under.rem.take n = l.under.rem := by rw [hnlen]; simp
+        have hwithin : l.read + l.under.rem.length ≤ l.limit := by omega
+        rcases hres with he | ⟨he, hlt, hst⟩
+        · simp [he, hdata, htake, hwithin]
+        · have hnext := ih caps.tail (adv l n) (acc ++ l.under.rem) (by simp [adv]; omega) hwb'
+            (by simp [adv, hd]; omega)
+          simp only [he, if_true, hdata, htake, hst, hnext]
+          simp [adv, hd, hwithin]
+          omega
+      · have hmore : n < l.under.rem.length := by
+          have : 1 ≤ (l.under.rem.drop n).length := by
+            cases h : l.under.rem.drop n with
+            | nil => exact absurd h hd
+            | cons a as => simp
+          omega
+        rcases hres with ⟨heq, he⟩ | ⟨hlt, he, hst⟩
+        · have hover : ¬ (l.read + l.under.rem.length ≤ l.limit) := by omega
+          have hneq : l.limit - l.read = n := by omega
+          simp [he, hdata, hover, hneq]
+        · have hnext := ih caps.tail (adv l n) (acc ++ l.under.rem.take n) (by simp [adv]; omega) hwb'
+            (by simp [adv]; omega)
+          simp only [he, if_true, hdata, hst, hnext]
+          simp only [adv, hdl]
+          by_cases hw : l.read + l.under.rem.length ≤ l.limit
+          · have hw' : l.read + n + (l.under.rem.length - n) ≤ l.limit := by omega
+            simp [hw, hw', List.append_assoc, hsplit]
+          · have hw' : ¬ (l.read + n + (l.under.rem.length - n) ≤ l.limit) := by omega
+            simp only [hw, hw', if_false, List.append_assoc]
+            have hsum : l.limit - l.read = n + (l.limit - (l.read + n)) := by omega
+            rw [hsum, List.take_add]
+
+/-! ### every transport, well-behaved or not -/
+
+/-- one `Read` of any underlying reader hands out a prefix of what remains, never reports
+    ErrBodyLimitExceeded, and reports io.EOF only when nothing remains -/
+theorem lemma_read_gen (u : Under) (cap : Nat) :
+    ∃ n, n ≤ cap ∧ n ≤ u.rem.length ∧ (u.read cap).1 = u.rem.take n ∧ (u.read cap).2.2.rem = u.rem.drop n ∧
+      ((u.read cap).2.1 = .eof → u.rem.drop n = []) ∧ (u.read cap).2.1 ≠ .limit := by
+  by_cases hr : u.rem = []
+  · exact ⟨0, by omega, by omega, by simp [Under.read, hr], by simp [Under.read, hr], by simp [hr], by simp [Under.read, hr]⟩
+  · have hdata : ∀ s : List Step, (∀ t, s ≠ Step.zero :: t) → (∀ t, s ≠ Step.fail :: t) → u.script = s →
+        u.read cap = (u.rem.take (min (chunkOf u cap) u.rem.length),
+          (if u.rem.drop (min (chunkOf u cap) u.rem.length) = [] ∧ u.eofWithLast = true then Err.eof else Err.none),
+          { u with rem := u.rem.drop (min (chunkOf u cap) u.rem.length), script := u.script.tail }) := by
+      intro s h1 h2 hs
+      unfold Under.read
+      simp only [hr, if_false]
+      split
+      · next rest heq => exact absurd (hs ▸ heq) (h1 rest)
+      · next rest heq => exact absurd (hs ▸ heq) (h2 rest)
+      · rfl
+    have hck : chunkOf u cap ≤ cap := by unfold chunkOf; split <;> omega
+    cases hs : u.script with
+    | nil =>
+      rw [hdata [] (by simp) (by simp) hs]
+      refine ⟨min (chunkOf u cap) u.rem.length, by omega, by omega, rfl, rfl, ?_, ?_⟩
+      · intro h; by_cases hc : u.rem.drop (min (chunkOf u cap) u.rem.length) = [] ∧ u.eofWithLast = true
+        · exact hc.1
+        · simp only [if_neg hc] at h; cases h
+      · simp only; split <;> simp
+    | cons a t =>
+      cases a with
+      | data k =>
+        rw [hdata (Step.data k :: t) (by simp) (by simp) hs]
+        refine ⟨min (chunkOf u cap) u.rem.length, by omega, by omega, rfl, rfl, ?_, ?_⟩
+        · intro h; by_cases hc : u.rem.drop (min (chunkOf u cap) u.rem.length) = [] ∧ u.eofWithLast = true
+          · exact hc.1
+          · simp only [if_neg hc] at h; cases h
+        · simp only; split <;> simp
+      | zero => exact ⟨0, by omega, by omega, by simp [Under.read, hr, hs], by simp [Under.read, hr, hs], by simp [Under.read, hr, hs], by simp [Under.read, hr, hs]⟩
+      | fail => exact ⟨0, by omega, by omega, by simp [Under.read, hr, hs], by simp [Under.read, hr, hs], by simp [Under.read, hr, hs], by simp [Under.read, hr, hs]⟩
+
+/-- the look-ahead never answers "no byte, no error"; it consumes at most one byte; io.EOF only
+    when nothing remains -/
+theorem lemma_lookAhead_gen (k : Nat) (u : Under) :
+    ((lookAhead k u).1 ≠ [] ∨ (lookAhead k u).2.1 ≠ .none) ∧ (lookAhead k u).2.1 ≠ .limit ∧
+    (((lookAhead k u).1 ≠ [] ∧ u.rem ≠ []) ∨
+     ((lookAhead k u).1 = [] ∧ ((lookAhead k u).2.1 = .eof → u.rem = []))) := by
+  induction k generalizing u with
+  | zero => simp [lookAhead]
+  | succ k ih =>
+    unfold lookAhead
+    obtain ⟨n, hn1, hn2, hd, hrem, heof, hnl⟩ := lemma_read_gen u 1
+    by_cases hc : (u.read 1).1 ≠ [] ∨ (u.read 1).2.1 ≠ .none
+    · rw [if_pos hc]
+      refine ⟨hc, hnl, ?_⟩
+      by_cases hne : (u.read 1).1 = []
+      · right
+        refine ⟨hne, fun he => ?_⟩
+        have h0 : n = 0 := by
+          rw [hd, List.take_eq_nil_iff] at hne
+          rcases hne with h | h
+          · exact h
+          · rw [h] at hn2; simpa using hn2
+        have := heof he
+        simpa [h0] using this
+      · left
+        refine ⟨hne, fun h => ?_⟩
+        rw [hd, h] at hne; simp at hne
+    · rw [if_neg hc]
+      have hc' : (u.read 1).1 = [] ∧ (u.read 1).2.1 = .none := by
+        constructor
+        · exact Classical.byContradiction fun h => hc (Or.inl h)
+        · exact Classical.byContradiction fun h => hc (Or.inr h)
+      have h0 : n = 0 := by
+        have hne := hc'.1
+        rw [hd, List.take_eq_nil_iff] at hne
+        rcases hne with h | h
+        · exact h
+        · rw [h] at hn2; simpa using hn2
+      have hrem' : (u.read 1).2.2.rem = u.rem := by simpa [h0] using hrem
+      have := ih (u.read 1).2.2
+      rw [hrem'] at this
+      exact this
+
+/-- one `limitedReader.Read` below the limit, over any transport -/
+theorem lemma_read1_gen (l : LR) (cap : Nat) (hlim : l.read < l.limit) :
+    ∃ n, n ≤ l.limit - l.read ∧ n ≤ l.under.rem.length ∧ (l.read1 cap).1 = l.under.rem.take n ∧
+      (l.read1 cap).2.2.limit = l.limit ∧
+      ((l.read1 cap).2.1 = .none → (l.read1 cap).2.2.read = l.read + n ∧ l.read + n < l.limit ∧
+          (l.read1 cap).2.2.under.rem = l.under.rem.drop n) ∧
+      ((l.read1 cap).2.1 = .eof → l.under.rem.drop n = []) ∧
+      ((l.read1 cap).2.1 = .limit → l.read + n = l.limit ∧ l.under.rem.drop n ≠ []) := by
+  have hge : ¬ (l.read ≥ l.limit) := by omega
+  obtain ⟨n, hn1, hn2, hd, hrem, heof, hnl⟩ := lemma_read_gen l.under (min cap (l.limit - l.read))
+  obtain ⟨hla1, hla2, hla3⟩ := lemma_lookAhead_gen maxEmptyReads (l.under.read (min cap (l.limit - l.read))).2.2
+  rw [hrem] at hla3
+  have hlen : (l.under.read (min cap (l.limit - l.read))).1.length = n := by rw [hd]; simp; omega
+  have hr1 : l.read1 cap =
+      ((l.under.read (min cap (l.limit - l.read))).1,
+       (if (decide (l.read + n ≥ l.limit) && decide ((l.under.read (min cap (l.limit - l.read))).2.1 = Err.none)) = true then
+          (if (lookAhead maxEmptyReads (l.under.read (min cap (l.limit - l.read))).2.2).1 ≠ [] then Err.limit
+           else (lookAhead maxEmptyReads (l.under.read (min cap (l.limit - l.read))).2.2).2.1)
+        else (l.under.read (min cap (l.limit - l.read))).2.1),
+       { l with under := (if (decide (l.read + n ≥ l.limit) && decide ((l.under.read (min cap (l.limit - l.read))).2.1 = Err.none)) = true then
+                            (lookAhead maxEmptyReads (l.under.read (min cap (l.limit - l.read))).2.2).2.2
+                          else (l.under.read (min cap (l.limit - l.read))).2.2),
+                read := l.read + n }) := by
+    unfold LR.read1; simp only [hge, if_false, hlen]
+  rw [hr1]
+  generalize l.under.read (min cap (l.limit - l.read)) = r at *
+  generalize lookAhead maxEmptyReads r.2.2 = x at *
+  refine ⟨n, by omega, hn2, hd, rfl, ?_, ?_, ?_⟩
+  · by_cases hlook : (decide (l.read + n ≥ l.limit) && decide (r.2.1 = Err.none)) = true
+    · simp only [if_pos hlook]
+      intro h
+      exfalso
+      by_cases hx : x.1 ≠ []
+      · rw [if_pos hx] at h; cases h
+      · rw [if_neg hx] at h
+        rcases hla1 with h1 | h1
+        · exact hx h1
+        · exact h1 h
+    · simp only [if_neg hlook]
+      intro h
+      refine ⟨trivial, ?_, hrem⟩
+      simp [h] at hlook; omega
+  · by_cases hlook : (decide (l.read + n ≥ l.limit) && decide (r.2.1 = Err.none)) = true
+    · simp only [if_pos hlook]
+      intro h
+      by_cases hx : x.1 ≠ []
+      · rw [if_pos hx] at h; cases h
+      · rw [if_neg hx] at h
+        rcases hla3 with ⟨hne, _⟩ | ⟨_, hee⟩
+        · exact absurd hne hx
+        · exact hee h
+    · simp only [if_neg hlook]
+      exact heof
+  · by_cases hlook : (decide (l.read + n ≥ l.limit) && decide (r.2.1 = Err.none)) = true
+    · simp only [if_pos hlook]
+      have hat : l.read + n ≥ l.limit := by simp at hlook; exact hlook.1
+      intro h
+      by_cases hx : x.1 ≠ []
+      · rcases hla3 with ⟨_, hne⟩ | ⟨he, _⟩
+        · exact ⟨by omega, hne⟩
+        · exact absurd he hx
+      · rw [if_neg hx] at h
+        exact absurd h hla2
+    · simp only [if_neg hlook]
+      intro h
+      exact absurd h hnl
+
+/-- the read loop over any transport: what has been collected is a prefix of the body no longer
+    than the limit allows; a clean end means the whole body, ErrBodyLimitExceeded means exactly
+    `limit` bytes with more behind them -/
+theorem lemma_readAll_gen (dflt : Nat) (fuel : Nat) (caps : List Nat) (l : LR) (acc : Bytes)
+    (hlim : l.read < l.limit) :
+    ∃ m, m ≤ l.limit - l.read ∧ m ≤ l.under.rem.length ∧
+      (readAll dflt fuel caps l acc).1 = acc ++ l.under.rem.take m ∧
+      ((readAll dflt fuel caps l acc).2 = .eof → l.under.rem.drop m = []) ∧
+      ((readAll dflt fuel caps l acc).2 = .limit → l.read + m = l.limit ∧ l.under.rem.drop m ≠ []) := by
+  induction fuel generalizing l acc caps with
+  | zero => exact ⟨0, by omega, by omega, by simp [readAll], by simp [readAll], by simp [readAll]⟩
+  | succ fuel ih =>
+    simp only [readAll]
+    generalize max 1 (caps.headD dflt) = cap
+    obtain ⟨n, hn1, hn2, hd, hl, hnone, heof, hlimit⟩ := lemma_read1_gen l cap hlim
+    by_cases he : (l.read1 cap).2.1 = .none
+    · simp only [he, if_true]
+      obtain ⟨hr1, hr2, hr3⟩ := hnone he
+      obtain ⟨m, hm1, hm2, hmd, hme, hml⟩ := ih caps.tail (l.read1 cap).2.2 (acc ++ (l.read1 cap).1) (by omega)
+      rw [hr3] at hm2 hmd hme hml
+      rw [hl, hr1] at hm1 hml
+      have hm2' : m ≤ l.under.rem.length - n := by simpa using hm2
+      refine ⟨n + m, by omega, by omega, ?_, ?_, ?_⟩
+      · rw [hmd, hd, List.append_assoc, List.take_add]
+      · intro h; have := hme h; rwa [List.drop_drop] at this
+      · intro h; have := hml h
+        refine ⟨by omega, ?_⟩
+        have h2 := this.2; rwa [List.drop_drop] at h2
+    · simp only [he, if_false]
+      exact ⟨n, hn1, hn2, by rw [hd], heof, hlimit⟩
+
+/-- **No silent truncation, whatever the transport does** (arbitrary chunk sizes, `(0, nil)` reads,
+    transport errors, either EOF style, any buffer sizes): if the handler's read loop ends with
+    io.EOF it has received the whole body and the body is within the limit. -/
+theorem bodylimit_never_truncates (dflt fuel : Nat) (caps : List Nat) (l : LR) (acc : Bytes)
+    (hlim : l.read < l.limit) (h : (readAll dflt fuel caps l acc).2 = .eof) :
+    (readAll dflt fuel caps l acc).1 = acc ++ l.under.rem ∧ l.read + l.under.rem.length ≤ l.limit := by
+  obtain ⟨m, hm1, hm2, hmd, hme, _⟩ := lemma_readAll_gen dflt fuel caps l acc hlim
+  have hlen : l.under.rem.length ≤ m := by
+    have := hme h
+    have h2 : (l.under.rem.drop m).length = 0 := by rw [this]; rfl
+    simp at h2; omega
+  have hm : m = l.under.rem.length := by omega
+  refine ⟨?_, by omega⟩
+  rw [hmd, hm, List.take_length]
+
+/-- the handler never receives more than `limit` bytes, and what it receives is a prefix of the body -/
+theorem bodylimit_prefix_within_limit (dflt fuel : Nat) (caps : List Nat) (l : LR) (hlim : l.read < l.limit) :
+    ∃ m, m ≤ l.limit - l.read ∧ (readAll dflt fuel caps l []).1 = l.under.rem.take m := by
+  obtain ⟨m, hm1, _, hmd, _, _⟩ := lemma_readAll_gen dflt fuel caps l [] hlim
+  exact ⟨m, hm1, by simpa using hmd⟩
+
+/-! ### skipped paths: the handler reads the transport itself -/
+
+theorem lemma_readPlain_gen (dflt fuel : Nat) (caps : List Nat) (u : Under) (acc : Bytes) :
+    ∃ m, m ≤ u.rem.length ∧ (readPlain dflt fuel caps u acc).1 = acc ++ u.rem.take m ∧
+      ((readPlain dflt fuel caps u acc).2 = .eof → u.rem.drop m = []) := by
+  induction fuel generalizing u acc caps with
+  | zero => exact ⟨0, by omega, by simp [readPlain], by simp [readPlain]⟩
+  | succ fuel ih =>
+    simp only [readPlain]
+    generalize max 1 (caps.headD dflt) = cap
+    obtain ⟨n, _, hn2, hd, hrem, heof, _⟩ := lemma_read_gen u cap
+    by_cases he : (u.read cap).2.1 = .none
+    · simp only [he, if_true]
+      obtain ⟨m, hm2, hmd, hme⟩ := ih caps.tail (u.read cap).2.2 (acc ++ (u.read cap).1)
+      rw [hrem] at hm2 hmd hme
+      have hm2' : m ≤ u.rem.length - n := by simpa using hm2
+      refine ⟨n + m, by omega, ?_, ?_⟩
+      · rw [hmd, hd, List.append_assoc, List.take_add]
+      · intro h; have := hme h; rwa [List.drop_drop] at this
+    · simp only [he, if_false]
+      exact ⟨n, hn2, by rw [hd], heof⟩
+
+theorem lemma_readPlain_wb (dflt fuel : Nat) (caps : List Nat) (u : Under) (acc : Bytes)
+    (hwb : wellBehaved u.script = true) (hfuel : u.rem.length + 2 ≤ fuel) :
+    readPlain dflt fuel caps u acc = (acc ++ u.rem, .eof) := by
+  induction fuel generalizing u acc caps with
+  | zero => omega
+  | succ fuel ih =>
+    simp only [readPlain]
+    have hc : 1 ≤ max 1 (caps.headD dflt) := by omega
+    generalize max 1 (caps.headD dflt) = cap at hc ⊢
+    by_cases hr : u.rem = []
+    · simp [Under.read, hr]
+    · obtain ⟨hk1, _⟩ := lemma_chunkOf_bounds u cap hc
+      have hlen : 1 ≤ u.rem.length := by
+        cases h : u.rem with
+        | nil => exact absurd h hr
+        | cons a as => simp
+      rw [lemma_read_wb u cap hwb hr]
+      generalize hn : min (chunkOf u cap) u.rem.length = n
+      have hn1 : 1 ≤ n := by omega
+      have hsplit : u.rem.take n ++ u.rem.drop n = u.rem := List.take_append_drop n _
+      by_cases hc2 : u.rem.drop n = [] ∧ u.eofWithLast = true
+      · simp only [if_pos hc2]
+        have : u.rem.take n = u.rem := by
+          have := hsplit; rw [hc2.1, List.append_nil] at this; exact this
+        simp [this]
+      · simp only [if_neg hc2, if_true]
+        rw [ih caps.tail _ _ (lemma_wb_tail _ hwb) (by simp; omega)]
+        simp [List.append_assoc, hsplit]
+
+/-- **The body-limit gate meets its oracle** for every request: every limit ≥ 1, every body, every
+    transport script (ill-behaved ones included), either EOF style, every sequence of handler buffer
+    sizes, absent / truthful / lying / malformed Content-Length, skipped path or not. -/
+theorem bodylimit_meets_spec (r : Req) (hl : 1 ≤ r.limit) : specOK r (serve r) = true := by
+  unfold specOK serve
+  by_cases hs : r.skip = true
+  · simp only [hs, if_true]
+    obtain ⟨m, hm2, hmd, hme⟩ := lemma_readPlain_gen r.dflt (fuelFor r) r.caps
+      { rem := r.body, script := r.script, eofWithLast := r.eofWithLast } []
+    have hB := fun hwb => lemma_readPlain_wb r.dflt (fuelFor r) r.caps
+      { rem := r.body, script := r.script, eofWithLast := r.eofWithLast } [] hwb (by simp [fuelFor]; omega)
+    generalize readPlain r.dflt (fuelFor r) r.caps { rem := r.body, script := r.script, eofWithLast := r.eofWithLast } [] = res at *
+    have hA : res.2 = .eof → res.1 = r.body := by
+      intro h
+      have hd := hme h
+      have hlen : r.body.length ≤ m := by
+        have h2 : (r.body.drop m).length = 0 := by simp only at hd; rw [hd]; rfl
+        simp at h2; omega
+      simp only [List.nil_append] at hmd
+      rw [hmd, List.take_of_length_le hlen]
+    obtain ⟨d, e⟩ := res
+    cases e <;> cases hw : wellBehaved r.script <;> simp_all
+  · have hs' : r.skip = false := by simpa using hs
+    simp only [hs', Bool.false_eq_true, if_false]
+    have hsame : over r = declaredOver r := by unfold over declaredOver; cases r.cl <;> rfl
+    by_cases hov : over r = true
+    · simp only [hov, if_true]
+      simp [← hsame, hov]
+    · simp only [hov, Bool.false_eq_true, if_false]
+      simp only [Bool.not_true, Bool.false_eq_true, if_false]
+      have hlim : (0 : Nat) < r.limit := by omega
+      have hA := bodylimit_never_truncates r.dflt (fuelFor r) r.caps
+        { under := { rem := r.body, script := r.script, eofWithLast := r.eofWithLast }, limit := r.limit } [] hlim
+      have hB := fun hwb => bodylimit_exact r.dflt (fuelFor r) r.caps
+        { under := { rem := r.body, script := r.script, eofWithLast := r.eofWithLast }, limit := r.limit } [] hlim hwb
+        (by simp [fuelFor]; omega)
+      generalize readAll r.dflt (fuelFor r) r.caps
+        { under := { rem := r.body, script := r.script, eofWithLast := r.eofWithLast }, limit := r.limit } [] = res at *
+      simp only [List.nil_append, Nat.zero_add] at hA hB
+      obtain ⟨d, e⟩ := res
+      cases e <;> cases hw : wellBehaved r.script <;> by_cases hle : r.body.length ≤ r.limit <;> simp_all
+
+/-! ### non-vacuity and the reader as shipped before the repair -/
+
+/-- a six-byte body against a limit of five, chunked 2-1-4 with io.EOF on the last chunk -/
+example : readAll 3 20 [] { under := { rem := "123456".toList, script := [.data 2, .data 1, .data 4], eofWithLast := true }, limit := 5 } []
+    = ("12345".toList, .limit) := by decide
+/-- exactly at the limit, look-ahead in its own read -/
+example : readAll 8 20 [1, 64] { under := { rem := "12345".toList, script := [.data 5], eofWithLast := false }, limit := 5 } []
+    = ("12345".toList, .eof) := by decide
+
+/-- K17c, `(0, nil)` at the look-ahead: the reader as shipped hands the handler five of six bytes
+    and a clean io.EOF -/
+theorem bodylimit_asis_zero_witness :
+    readAllAsIs 8 20 [] { under := { rem := "123456".toList, script := [.data 5, .zero], eofWithLast := false }, limit := 5 } []
+      = ("12345".toList, .eof) := by decide
+
+/-- K17c, transport error at the look-ahead: swallowed by the reader as shipped -/
+theorem bodylimit_asis_fail_witness :
+    readAllAsIs 8 20 [] { under := { rem := "123456".toList, script := [.data 5, .fail], eofWithLast := false }, limit := 5 } []
+      = ("12345".toList, .eof) := by decide
+
+/-- the repaired reader on the same two transports: the limit error, resp. the transport's error -/
+theorem bodylimit_fixed_on_witnesses :
+    readAll 8 20 [] { under := { rem := "123456".toList, script := [.data 5, .zero], eofWithLast := false }, limit := 5 } []
+      = ("12345".toList, .limit) ∧
+    readAll 8 20 [] { under := { rem := "123456".toList, script := [.data 5, .fail], eofWithLast := false }, limit := 5 } []
+      = ("12345".toList, .other) := by decide
+
+end body
+
+end Rivaas.C17
